@@ -32,6 +32,7 @@ class Maker:
 
 
 ALLK = ['ok', 'raise', 'baseexc', 'unpicklable', 'memover']
+UNS = ['unpicklable', 'unpicklable_deep', 'unpicklable_badrepr']
 
 FORMULAS = {
     'C03': (['StreamShape', 'OneResultPerJob', 'AckCarries', 'ResultOnlyAfterAccept',
@@ -73,10 +74,10 @@ SCEN = {
                              cfg(NJobs=3, Quota=1, Synack=True, Kinds=['ok'])],
                       walks=cfg(NJobs=5, Quota=3, Kinds=ALLK, Signals=True, Synack=True))),
     'C12': dict(
-        quick=dict(small=[cfg(Kinds=['ok', 'unpicklable'])],
-                   walks=cfg(NJobs=3, Quota=2, Kinds=ALLK)),
-        thorough=dict(small=[cfg(NJobs=3, Quota=2, Kinds=['ok', 'unpicklable', 'raise'])],
-                      walks=cfg(NJobs=4, Quota=3, Kinds=ALLK, Synack=True))),
+        quick=dict(small=[cfg(Kinds=['ok'] + UNS)],
+                   walks=cfg(NJobs=3, Quota=2, Kinds=ALLK + UNS[1:])),
+        thorough=dict(small=[cfg(NJobs=3, Quota=2, Kinds=['ok', 'raise'] + UNS)],
+                      walks=cfg(NJobs=4, Quota=3, Kinds=ALLK + UNS[1:], Synack=True))),
 }
 
 
